@@ -2,6 +2,7 @@ package main
 
 import (
 	"fmt"
+	"go/token"
 	"go/types"
 	"strings"
 
@@ -113,6 +114,134 @@ func runC20(c *Ctx) {
 	}
 	// transactions taken out of a list are disposed of
 	c20Dropped(c, w, allRemove)
+
+	// ------------------------------------------------------------ L5
+	c.Rule("C20.L5", "ALWAYS-WITH", "txSortedMap keeps a cached sorted view of its items: every write to items (insert, overwrite, delete) is accompanied by a write of cache — before it on every path, or after it on every path except where cache is nil or nothing was removed — so Pending()/Flatten() never hand out a transaction the list no longer holds")
+	c.Min(6)
+	itemsF := w.Field("core", "txSortedMap", "items")
+	cacheF := w.Field("core", "txSortedMap", "cache")
+	for _, fn := range w.FuncsIn("core") {
+		if strings.HasSuffix(w.fileOf(fn.Pos()), "_test.go") || fn.Signature.Recv() == nil || !strings.Contains(fn.Signature.Recv().Type().String(), "txSortedMap") {
+			continue
+		}
+		var cacheStores []ssa.Instruction
+		for _, fw := range fieldWrites(fn) {
+			if fw.Field == cacheF && fw.Kind == "store" {
+				cacheStores = append(cacheStores, fw.Instr)
+			}
+		}
+		n := 0
+		for _, fw := range fieldWrites(fn) {
+			if fw.Field != itemsF || isLocalAlloc(fw.Base) || fw.Kind == "store" {
+				continue
+			}
+			c.sites++
+			c.sawFunc(fname(fn))
+			ok := mustPassBefore(fw.Instr, cacheStores)
+			if !ok {
+				cs := map[*ssa.BasicBlock]bool{}
+				for _, s := range cacheStores {
+					cs[s.Block()] = true
+				}
+				wb := fw.Instr.Block()
+				ok = true
+				for _, b := range fn.Blocks {
+					if _, isRet := b.Instrs[len(b.Instrs)-1].(*ssa.Return); !isRet || b == fn.Recover || !blockReaches(wb, b) {
+						continue
+					}
+					if cs[wb] && mustPassAfter(fw.Instr, cacheStores) {
+						continue
+					}
+					if b == wb {
+						ok = false // returns right after the write without touching the cache
+						continue
+					}
+					if cs[b] {
+						continue // the returning block itself resets the cache
+					}
+					good := allPathsBetween(wb, b, func(x *ssa.BasicBlock) bool { return cs[x] }, func(from, to *ssa.BasicBlock) bool {
+						f, isIf := edgeFact(from, to)
+						if !isIf {
+							return false
+						}
+						a := atomsOf([]Fact{f})[0]
+						// cache == nil: nothing to maintain
+						if a.Kind == "isnil" && a.Truth {
+							if lf, _ := loadedField(stripConv(a.X)); lf == cacheF {
+								return true
+							}
+						}
+						// len(removed) > 0 is false although this write appended to removed: infeasible
+						if a.Kind == "cmp" {
+							op := a.Op
+							if !a.Truth {
+								op = negateCmp(op)
+							}
+							if lc, isCall := stripConv(a.X).(*ssa.Call); isCall && op == token.LEQ {
+								if bi, isB := lc.Call.Value.(*ssa.Builtin); isB && bi.Name() == "len" {
+									for _, in := range wb.Instrs {
+										if ap, isAp := in.(*ssa.Call); isAp {
+											if b2, isB2 := ap.Call.Value.(*ssa.Builtin); isB2 && b2.Name() == "append" && derivesFrom(lc.Call.Args[0], func(v ssa.Value) bool { return v == ssa.Value(ap) }) {
+												return true
+											}
+										}
+									}
+								}
+							}
+						}
+						return false
+					})
+					if !good && !(b == wb && mustPassAfter(fw.Instr, cacheStores)) {
+						ok = false
+					}
+				}
+			}
+			c.Check(fmt.Sprintf("%s#items-write-%d-invalidates-cache", fname(fn), n), fw.Instr.Pos(), ok, ifelse(ok, "the cached order is reset or adjusted with the write", "the item map changes while the cached sorted view is kept: Flatten()/Pending() keep returning a transaction the list no longer holds (or miss a new one)"))
+			n++
+		}
+	}
+
+	// ------------------------------------------------------------ L6
+	c.Rule("C20.L6", "ALWAYS-WITH", "wherever a transaction is taken out of an account's pending list by (*txList).Remove, the account's pending nonce is lowered (pendingNonces.setIfLower) on every path that follows the successful removal")
+	c.Min(1)
+	txlRemove := w.FuncObj("core", "txList", "Remove")
+	pendingF := w.Field("core", "TxPool", "pending")
+	for _, fn := range w.FuncsIn("core") {
+		if strings.HasSuffix(w.fileOf(fn.Pos()), "_test.go") {
+			continue
+		}
+		for _, ci := range callsTo(fn, txlRemove) {
+			if !derivesFrom(callRecv(ci), func(v ssa.Value) bool { f, _ := loadedField(v); return f == pendingF }) {
+				continue
+			}
+			c.sites++
+			c.sawFunc(fname(fn))
+			var lowers []ssa.Instruction
+			for _, cj := range callInstrs(fn) {
+				if o := calleeObj(cj); o != nil && o.Name() == "setIfLower" {
+					lowers = append(lowers, cj)
+				}
+			}
+			// the block entered when removed == true
+			ok := false
+			cv := ci.Value()
+			for _, ref := range *cv.Referrers() {
+				e, isE := ref.(*ssa.Extract)
+				if !isE || e.Index != 0 {
+					continue
+				}
+				for _, r2 := range *e.Referrers() {
+					ifi, isIf := r2.(*ssa.If)
+					if !isIf {
+						continue
+					}
+					tb := ifi.Block().Succs[0]
+					ok = len(tb.Instrs) > 0 && (mustPassAfter(tb.Instrs[0], lowers) || instrSet(lowers)[tb.Instrs[0]])
+				}
+			}
+			c.Check(fname(fn)+"#pending-removal-lowers-nonce", ci.Pos(), ok, ifelse(ok, "every path after a successful removal passes pendingNonces.setIfLower", "a transaction leaves the pending list without the account's pending nonce being lowered on some path: later submissions are promoted above a gap and Nonce() reports a nonce nobody holds"))
+		}
+	}
 
 	// ------------------------------------------------------------ L3
 	c.Rule("C20.L3", "GATE", "in (*TxPool).add every insertion (enqueueTx, the pending replacement all.Add, journalTx) is dominated by validateTx == nil; promoteTx sets the pending nonce to tx.Nonce()+1")
